@@ -43,8 +43,8 @@ RULE = ("BFS over histories of {call(side, kind in ok/later/declared-error/undec
         "box received, call kinds+results, responder invocations+completion).  non-trivial = distinct states in which "
         "two calls were outstanding at once, an answer overtook another, a loss hit an outstanding call, or a box was "
         "partially delivered")
-BOUNDS = {"quick": "<= 2 calls per side, depth 8 (sharded on the first 2 events)",
-          "thorough": "<= 3 calls per side (<= 4 in total), depth 10 (sharded on the first 3 events)"}
+BOUNDS = {"quick": "<= 3 calls in total (any split between the sides), depth 6 (sharded on the first 2 events)",
+          "thorough": "<= 3 calls per side, <= 4 in total, depth 8 (sharded on the first 3 events)"}
 ASSUMPTIONS = [
     "the peers talk over MemTransport: bytes written after loseConnection are dropped (a real TCP transport would still "
     "send them); the reference follows the bytes actually on the wire, so both behaviours are accepted",
@@ -53,7 +53,7 @@ ASSUMPTIONS = [
     "merged states have equal futures: the peers' behaviour depends only on outstanding tags, tag counter, parser "
     "buffer, pending responder Deferreds and transport flags, all determined by the canonical tuple",
 ]
-MIN = {"quick": {"states": 20000, "transitions": 60000, "nontrivial": 5000, "outcomes": 8},
+MIN = {"quick": {"states": 45000, "transitions": 100000, "nontrivial": 15000, "outcomes": 8},
        "thorough": {"states": 20000, "transitions": 60000, "nontrivial": 5000, "outcomes": 8}}
 
 KINDS = ["ok", "later", "decl", "undecl"]
@@ -433,7 +433,7 @@ def canon(st):
 
 # ----------------------------------------------------------------------------------------------
 def config(tier):
-    return {"quick": (2, 4, 8, 2), "thorough": (3, 4, 10, 3)}[tier]   # per-side calls, total calls, depth, prefix len
+    return {"quick": (3, 3, 6, 2), "thorough": (3, 4, 8, 3)}[tier]   # per-side calls, total calls, depth, prefix len
 
 
 def initial_for(tier, prefix):
